@@ -220,6 +220,7 @@ EndTagsW(pre, c, e, post, newC, r, d, cc) ==
        \cup PoolTag(Inv_C20(post, DonA), Inv_C20(post, 0), gh.donAS, gh.donAD, "F-C20-pool-donation", "F-C20-pool-dao-transfer", "C20")
        \cup IfNot(Inv_AppIndex(post) /\ Inv_C28(post, c, gh.relStable), "C28")
        \cup IfNot(Inv_C36(post), "C36") \cup IfNot(Inv_C37(post, e.h), "C37")
+       \cup IncoherentParams(post, newC)
        \cup (IF d \cap {"tmSet", "prevPower", "prevTotal"} # {} \/ r.ups # e.updates THEN {"C22"} ELSE {})
        \cup (IF d \cap {"val", "ixWaiting", "bal", "supply", "app", "appUnst"} # {} THEN {"C24"} ELSE {})
        \cup (IF d \cap {"signing", "missed"} # {} THEN {"C25"} ELSE {})
